@@ -365,6 +365,9 @@ pub fn run_c08(ctx: &mut Ctx) {
         for i in 0..=recs.len() {
             if i == pos {
                 for r in &prelude { cur.extend(r.ser()); }
+                // sometimes another reply-owing record (unknown type) directly in front of the query, in the same transport read: handling
+                // the first must not end the processing of what was read
+                if prelude.is_empty() && rng.chance(1, 4) { let lead = Rec::new(rng.range(12, 255) as u8, if rng.chance(1, 2) { 0 } else { crate::gen::FOREIGN_MIN.load(std::sync::atomic::Ordering::Relaxed) as u16 + rng.below(100) as u16 }, rng.bytes(rng.clone().usize_below(10)), vec![]); cur.extend(lead.ser()); or.count("unknown_type_record_directly_before_query"); }
                 cur.extend(q.ser());
                 // flush: everything after the query waits for the reply
                 segs.push(format!("{}{}", hexd(&cur), cur_gate)); cur.clear();
